@@ -154,7 +154,8 @@ def job_clip(label, n, Kc, max_paths=600, timeout_q=15.0):
         if all(all(r) for r in mask):
             return None  # nothing clipped on this path: covered by job()
         S, G = gem.evaluate(P.copy(), None if A is None else A.copy(), return_grad=True)
-        return mask, G, S
+        S0 = gem.evaluate(P.copy(), None if A is None else A.copy(), return_grad=False)
+        return mask, G, (S, S0)
 
     ex = Explorer(max_paths=max_paths)
     for out, pc, trace in ex.run(body, setup):
@@ -165,9 +166,22 @@ def job_clip(label, n, Kc, max_paths=600, timeout_q=15.0):
         if isinstance(out, PathError):
             _path_error(res, out, pc, tag, label, n, Kc, "grad-clipped")
             continue
-        mask, G, S = out
-        S = _scalar(S)
+        mask, G, (S, S0) = out
+        S, S0 = _scalar(S), _scalar(S0)
         G = np.asarray(G, dtype=object)
+        # the score does not depend on whether the gradient was asked for (also with clipped entries)
+        o = harness.prove_zero(core.to_rat(S) - core.to_rat(S0), pc, timeout_s=timeout_q, name=tag + "/score(return_grad=True)==score(return_grad=False)")
+        if o.get("how", "").startswith("solver"):
+            res["queries"] += 1
+        res["obligations"].append(_strip(o))
+        if o["verdict"] == "sat":
+            rep = {"label": label, "n": n, "K": Kc, "kind": "grad-clipped", "model": {k: str(v) for k, v in (o.get("model") or {}).items() if k[0] in "pam"}}
+            if o.get("model") and replay(rep):
+                if not any(v["signature"].endswith(":score-depends-on-return_grad") for v in res["violations"]):
+                    res["violations"].append({"signature": f"{PROP}:{_base(label)}:score-depends-on-return_grad",
+                                              "what": f"{label}: with clipped entries the returned score differs with and without return_grad (n={n},K={Kc})", "replay": rep})
+            else:
+                res["obligations"][-1]["verdict"] = "inconclusive"
         bad = []
         for i in range(n):
             for k in range(Kc):
@@ -394,15 +408,25 @@ def _replay_clipped_eps(gem, P, A, n, Kc, verbose, eps):
             Q[i][free] *= rest / Q[i][free].sum()
             if Q[i][free].min() <= 2 * eps or Q[i][free].max() >= 1 - 2 * eps:
                 return False
-    g2 = type(gem)(**{**gem.__dict__, "epsilon": eps}) if not hasattr(gem, "get_params") else type(gem)(**{k: v for k, v in gem.__dict__.items() if k != "epsilon"}, epsilon=eps)
+    import inspect
+    accepted = set(inspect.signature(type(gem).__init__).parameters)     # MI(epsilon=...) has no ovo argument
+    g2 = type(gem)(**{k: v for k, v in gem.__dict__.items() if k in accepted and k != "epsilon"}, epsilon=eps)
     S, G = g2.evaluate(Q.copy(), A, return_grad=True)
+    S0 = g2.evaluate(Q.copy(), A, return_grad=False)
+    if abs(float(S) - float(S0)) > 1e-9 * max(1.0, abs(float(S0))):
+        if verbose:
+            print(f"epsilon={eps}: score with return_grad=True {float(S):.12g}, without {float(S0):.12g}; P=", Q.tolist())
+        return True
     worst = 0.0
     for i in range(n):
         free = [k for k in range(Kc) if not (low[i, k] or high[i, k])]
-        for a in range(len(free)):
-            for b in range(a + 1, len(free)):
-                ka, kb = free[a], free[b]
-                h = 1e-6 * min(Q[i, ka], Q[i, kb])
+        clipped = [k for k in range(Kc) if (low[i, k] or high[i, k])]
+        # directions between two unclipped entries, and between an unclipped and a clipped entry (which stays clipped: the score
+        # does not move with it and its gradient entry is zero, so the unclipped entry must carry the exact partial derivative)
+        pairs = [(free[a], free[b]) for a in range(len(free)) for b in range(a + 1, len(free))] + [(ka, kc) for ka in free for kc in clipped]
+        for ka, kb in pairs:
+            if True:
+                h = 1e-6 * min(Q[i, ka], Q[i, kb], 1 - Q[i, kb]) if kb in clipped else 1e-6 * min(Q[i, ka], Q[i, kb])
                 Pp, Pm = Q.copy(), Q.copy()
                 Pp[i, ka] += h
                 Pp[i, kb] -= h
